@@ -231,6 +231,38 @@ def main(tier, seed):
                 ck.failing_input('in-parameter does not default to transfer none', dict(function=f, param=n), detail=o)
             if t in (T_td('gpointer'),) and not o['nullable']:
                 ck.failing_input('untyped pointer parameter not nullable', dict(function=f, param=n), detail=o)
+            if t in (T_ptr(T_ptr(T_basic('char'))), T_ptr(T_ptr(T_td('gchar'))), T_ptr(T_basic('char')), T_ptr(T_td('gchar'))) \
+                    and o['tname'] != 'utf8':
+                ck.failing_input('a char pointer parameter is not described as utf8', dict(function=f, param=n), detail=o)
+            if t in (T_ptr(T_void()), T_ptr(T_ptr(T_void()))) and o['tname'] != 'gpointer':
+                ck.failing_input('a void pointer parameter is not described as gpointer', dict(function=f, param=n), detail=o)
+        if f['ret'] in (T_ptr(T_ptr(T_basic('char'))), T_ptr(T_ptr(T_td('gchar')))) and not (c['robs']['array'] and c['robs']['child'] == 'utf8'):
+            ck.failing_input('a returned char** is not an array of utf8', dict(function=f), detail=c['robs'])
+        if f['ret'] in (T_td('FooAlias'), T_td('GQuark'), T_td('gint'), T_basic('int')) and c['robs']['transfer'] != 'none':
+            ck.failing_input('a returned basic type (or alias of one) does not default to transfer none', dict(function=f), detail=c['robs'])
+        # callback arrangements
+        CBS = ('FooCb', 'GFunc', 'GAsyncReadyCallback')
+        finals = f['params'][:len(c['pobs'])]
+        for i, ((n, t), o) in enumerate(zip(finals, c['pobs'])):
+            if not (t[0] == 'td' and t[1] in CBS):
+                continue
+            want_closure = want_destroy = None
+            for j in range(i + 1, len(finals)):
+                n2, t2 = finals[j]
+                if t2[0] == 'td' and t2[1] in CBS:
+                    break
+                if t2[0] == 'td' and t2[1] == 'GDestroyNotify':
+                    want_destroy = j
+                elif c['pobs'][j]['tname'] == 'gpointer' and not c['pobs'][j]['array'] and n2.endswith('data'):
+                    want_closure = j
+            if o['closure'] != want_closure:
+                ck.failing_input('user-data closure of a callback parameter: expected index %r, GIR says %r' % (want_closure, o['closure']),
+                                 dict(function=f, param=n), detail=o)
+            if o['destroy'] != want_destroy or (want_destroy is not None and o['scope'] != 'notified'):
+                ck.failing_input('destroy-notify of a callback parameter: expected index %r with scope notified, GIR says %r scope %r'
+                                 % (want_destroy, o['destroy'], o['scope']), dict(function=f, param=n), detail=o)
+            if want_destroy is None and t[1] == 'GAsyncReadyCallback' and o['scope'] != 'async':
+                ck.failing_input('an async-ready callback does not get async scope', dict(function=f, param=n), detail=o)
     if ck.models_ok:
         env = clist(['(%s, (%s, %s))' % (cstr(k), cstr(v[0]), v[1]) for k, v in ENV.items()])
         items = []
